@@ -1,9 +1,10 @@
 #!/bin/sh
 # runs every thorough check against /repo and keeps a copy of its evidence in evidence_thorough/
 cd /verif
-mkdir -p evidence_thorough
+ED=${EVDIR:-evidence_thorough}
+mkdir -p $ED
 for c in C01 C02 C03 C04 C05 C06 C07 C08 C09 C11 C12 C13 C14 C15 C17 C18 C19 C20 C16 C10; do
   /usr/bin/time -f "$c %es" ./check $c thorough 2>&1 | grep -E "thorough seed|VIOLATION|INCONCL|KNOWN|what:|^C[0-9]+ [0-9]" | cut -c1-300
-  cp evidence/$c.json evidence_thorough/$c.json
+  cp evidence/$c.json $ED/$c.json
 done
 echo thorough done
